@@ -29,6 +29,7 @@ type Engine struct {
 	funcIDs   map[*ssa.Function]int
 	mu        sync.Mutex
 	globStore map[string]bool // globals stored outside init
+	sigContracts map[string]*Contract
 	constMaps  map[*ssa.Global][]*ssa.Const
 	constMapOK map[*ssa.Global]bool
 	globOnce  sync.Once
@@ -188,6 +189,23 @@ func (e *Engine) funcTypeContract(call *ssa.CallCommon) *Contract {
 		if ct, ok := e.contracts[k]; ok {
 			return ct
 		}
+	}
+	// unnamed function types: `func functype:func(string)(rune,int)` in any package,
+	// matched on the signature with spaces removed
+	if sig, ok := t.Underlying().(*types.Signature); ok {
+		want := "functype:" + strings.ReplaceAll(types.TypeString(sig, func(p *types.Package) string { return p.Name() }), " ", "")
+		e.mu.Lock()
+		if e.sigContracts == nil {
+			e.sigContracts = map[string]*Contract{}
+			for _, ct := range e.contracts {
+				if strings.HasPrefix(ct.Key, "functype:func(") {
+					e.sigContracts[strings.ReplaceAll(ct.Key, " ", "")] = ct
+				}
+			}
+		}
+		ct := e.sigContracts[want]
+		e.mu.Unlock()
+		return ct
 	}
 	return nil
 }
